@@ -152,6 +152,7 @@ def evaluate(rows, model_ok, want, exact_nest_paths=False):
     gen_reqs = ["gen\t" + r["decl_sexp"] for r in rows]
     gen_ans = C.drive("modeldrv", gen_reqs) if model_ok and rows else [None] * len(rows)
     sem_reqs, spec_reqs, idx = [], [], []
+    xcheck_reqs, xcheck_idx = [], []
     for ri, r in enumerate(rows):
         if r.get("gen_exit"):
             out["gen_fail"].append(r)
@@ -170,7 +171,11 @@ def evaluate(rows, model_ok, want, exact_nest_paths=False):
             continue
         for vi, (v, o) in enumerate(zip(r["values"], r["obs"])):
             sem_reqs.append("sem\t%s\tbg\t%s" % (r["decl_sexp"], v))
-            spec_reqs.append("spec\t%s\t%s" % (r.get("spec_sexp") or r["decl_sexp"], v))
+            # a nested struct carrying markers: the Spec WITH such markers (Spec.violatedN) is asked about the declaration as written
+            spec_reqs.append(("specn\t%s\t%s" if r.get("spec_sexp") else "spec\t%s\t%s") % (r["decl_sexp"], v))
+            if r.get("spec_sexp"):
+                xcheck_reqs.append("spec\t%s\t%s" % (r["spec_sexp"], v))
+                xcheck_idx.append(len(idx))
             idx.append((ri, vi))
     out["nvalues"] = len(idx)
     # a struct for which the generator wrote NO validator although the Spec has rules for it: every violating
@@ -191,6 +196,14 @@ def evaluate(rows, model_ok, want, exact_nest_paths=False):
                     break
     sem_ans = C.drive("modeldrv", sem_reqs) if model_ok and sem_reqs else [None] * len(sem_reqs)
     spec_ans = C.drive("specdrv", spec_reqs) if spec_reqs else []
+    # cross-check of the Spec with markers on nested structs: the harness' own push-down of those markers onto the direct
+    # fields, asked of the plain Spec, must demand the same (rule, value) entries
+    out["spec_xcheck"] = []
+    if xcheck_reqs:
+        for k, a in zip(xcheck_idx, C.drive("specdrv", xcheck_reqs)):
+            if not same_rules(a, spec_ans[k]):
+                ri, vi = idx[k]
+                out["spec_xcheck"].append((rows[ri], rows[ri]["values"][vi], spec_ans[k], a))
     ctx_reqs, ctx_exp = [], []
     # C15: the Spec's number of validated fields (one cancellation point each), independent of the implementation
     poll_rows = [r for r in rows if r.get("file")]
@@ -339,6 +352,10 @@ def report(res, ev, broken, aspects, known_match=None):
     if ev["sem"]:
         r, v, o, sa = ev["sem"][0]
         ties.append(("corr-sem", "model and compiled output disagree on %s/%s value %s (%d cases):\n impl : %s\n model: %s" % (r["scenario"], r["decl"], v[:300], len(ev["sem"]), o[:500], sa[:500])))
+    if ev.get("spec_xcheck"):
+        r, v, a1, a2 = ev["spec_xcheck"][0]
+        ties.append(("spec-nest-markers", "Spec.violatedN (Lean) and the harness' push-down of nested-struct markers disagree on %s/%s value %s (%d cases):\n violatedN: %s\n push-down: %s" % (
+            r["scenario"], r["decl"], v[:300], len(ev["spec_xcheck"]), a1[:500], a2[:500])))
     if ev["ctx_model"] and "ctx" in aspects:
         r, v, k, got, a = ev["ctx_model"][0]
         ties.append(("corr-sem-ctx", "model and compiled output disagree under %s on %s/%s: impl %s model %s" % (k, r["scenario"], r["decl"], got[:200], a[:200])))
